@@ -146,6 +146,8 @@ def schedule {α : Type} (D : Dom α) (coll algo : String) (np root c m : Nat) :
   | "allgather", "ring" =>
     let bufs := ranks.map fun r => pat D r C
     some (ranks.map fun r => (allSome (allgatherRing bufs r)).map List.flatten)
+  | "allgather", "bruck" =>
+    some (ranks.map fun r => (allSome (allgatherBruck (fun q => pat D q C) np r)).map List.flatten)
   | "allreduce", "lr" =>          -- only for counts that are a positive multiple of np (see `hasSchedule`)
     if np = 0 then none else
     let blk := C / np
@@ -161,7 +163,7 @@ def schedule {α : Type} (D : Dom α) (coll algo : String) (np root c m : Nat) :
 variant, which never runs the selected algorithm) -/
 def hasSchedule (coll algo : String) (nb : Bool) (np c : Nat) : Bool :=
   !nb && ((coll, algo) ∈ [("bcast", "binomial_tree"), ("bcast", "default"), ("allreduce", "rdb"), ("allgather", "ring"),
-    ("alltoall", "pair"), ("reduce", "flat_tree"), ("reduce", "binomial")] ||
+    ("allgather", "bruck"), ("alltoall", "pair"), ("reduce", "flat_tree"), ("reduce", "binomial")] ||
     -- allreduce-lr.cpp hands counts < np and the remainder of counts that np does not divide to other algorithms
     ((coll, algo) == ("allreduce", "lr") && np != 0 && c >= np && c % np == 0))
 
